@@ -352,6 +352,28 @@ def pin_names(body):
         free_n = [n for n in pinned if n not in cur_by_i.values()]
         if free_i and len(free_i) == len(free_n):
             ren = dict(zip(free_i, free_n))
+            # a captured variable is a RENAMED one only when it has the type the pinned capture had in the parent
+            # (a closure that now captures a Duration computed outside instead of the i8 it was computed from captures
+            # another variable, not a renamed one)
+            try:
+                prog_ = getattr(body.unit, "prog", None)
+                par = next((b_ for b_ in prog_.bodies.values() if b_.unit is body.unit and b_.j["key"] == body.parent), None)
+                pent = pinned_names().get(par.key) if par is not None else None
+                if par is not None and pent:
+                    ptypes = {}
+                    for (i_, t_, n_) in (tuple(x) for x in pent["locals"]):
+                        ptypes.setdefault(n_, t_)
+                    ctypes = {}
+                    for i_, l_ in enumerate(par.locals):
+                        if l_.get("name"):
+                            ctypes.setdefault(l_["name"], par.ty(l_["ty"])["s"])
+                    for i_ in list(ren):
+                        cn = cur_by_i[i_][len("_ref__"):] if cur_by_i[i_].startswith("_ref__") else cur_by_i[i_]
+                        pn = ren[i_][len("_ref__"):] if ren[i_].startswith("_ref__") else ren[i_]
+                        if cn in ctypes and pn in ptypes and ctypes[cn] != ptypes[pn]:
+                            del ren[i_]
+            except Exception:
+                pass
             for blk in body.blocks:
                 for p in iter_places(blk):
                     if p["l"] == 1:
@@ -461,13 +483,18 @@ class Program:
                         ent = pn.get(r.get("key")) or {}
                         caps = {i: n for (i, n) in (tuple(x) for x in ent.get("captures", []))}
                         fs = r.get("fields") or []
-                        if caps and len(fs) == len(caps):
-                            pinned = [caps[i] for i in sorted(caps)]
-                            free_i = [i for i, f in enumerate(fs) if f not in pinned]
-                            free_n = [n for n in pinned if n not in fs]
-                            if free_i and len(free_i) == len(free_n):
-                                ren = dict(zip(free_i, free_n))
-                                r["fields"] = [ren.get(i, f) for i, f in enumerate(fs)]
+                        if caps and fs:
+                            # the aggregate's field names are whatever the closure body (after pinning) calls them
+                            cb_ = next((x for x in self.bodies.values() if x.unit is b.unit and x.j["key"] == r.get("key")), None)
+                            used = {}
+                            if cb_ is not None:
+                                for blk2 in cb_.blocks:
+                                    for p_ in iter_places(blk2):
+                                        if p_["l"] == 1:
+                                            for e_ in p_["proj"][:2]:
+                                                if e_[0] == "field" and isinstance(e_[2], str) and not e_[2].isdigit():
+                                                    used[e_[1]] = e_[2]
+                            r["fields"] = [used.get(i, f) for i, f in enumerate(fs)]
         # functions that did not exist in the pinned tree are inlined into their callers (engine/sa/mirinline.py)
         from . import mirinline as _inline
         try:
